@@ -2088,9 +2088,12 @@ class Client:
             raise UnexpectedResponseException(
                 response, 'ModeOfOperation echo does not match request. Received 0x%02x, Requested=0x%02x' % (response.service_data.moop_echo, moop))
 
-        if response.service_data.dfi is not None and dfi is not None:
+        # The DataFormatIdentifier transmitted is the one given by the user or the default one (0x00) when omitted.
+        dfi_is_sent = moop in [services.RequestFileTransfer.ModeOfOperation.AddFile, services.RequestFileTransfer.ModeOfOperation.ReplaceFile,
+                               services.RequestFileTransfer.ModeOfOperation.ReadFile, services.RequestFileTransfer.ModeOfOperation.ResumeFile]
+        if response.service_data.dfi is not None and dfi_is_sent:
             received = response.service_data.dfi.get_byte_as_int()
-            expected = dfi.get_byte_as_int()
+            expected = services.RequestFileTransfer.normalize_data_format_identifier(dfi).get_byte_as_int()
             if received != expected:
                 raise UnexpectedResponseException(
                     response, 'DataFormatIdentifier echo does not match request. Received 0x%02x, Requested=0x%02x' % (received, expected))
